@@ -167,9 +167,12 @@ def parse_keywords(lines, multiline_values=True, key_hints=None):
     key = None
     value = ''
     # FIXME could use some refactoring to reduce code duplication!
-    for line in lines.split('\n'):
-        if line.strip() == 'OK':
-            continue
+    all_lines = lines.split('\n')
+    # only a trailing "OK" can be the reply's terminator; the same
+    # text further up is a line of a (multi-line) value
+    if all_lines[-1].strip() == 'OK':
+        all_lines.pop()
+    for line in all_lines:
 
         sp = line.split('=', 1)
         found_key = ('=' in line and ' ' not in sp[0])
